@@ -27,7 +27,7 @@ class Kind(tuple):
 
     def __str__(self):
         t = self[0]
-        if t in ("int", "bool", "real", "str", "none", "any", "fn", "type", "module"):
+        if t in ("int", "bool", "real", "str", "none", "any", "fn", "type", "module", "flags"):
             return t
         if t == "ref":
             return "ref %s" % self[1]
@@ -45,6 +45,8 @@ class Kind(tuple):
 
 
 INT = Kind("int")
+FLAGS = Kind("flags")  # an int viewed as NBITS boolean bits plus an opaque high part (flag words)
+NBITS = 14
 BOOL = Kind("bool")
 REAL = Kind("real")
 STR = Kind("str")
@@ -140,6 +142,8 @@ class _P:
             return Kind(w)
         if w == "float":
             return REAL
+        if w == "flags":
+            return Kind("flags")
         if w == "ref":
             return ref(self.ident())
         if w == "exc":
@@ -185,7 +189,7 @@ def alts(k):
 
 def sort_of(k):
     t = k.tag
-    if t in ("int", "ref", "list", "dict", "odict", "iter", "exc", "fn"):
+    if t in ("int", "ref", "list", "dict", "odict", "iter", "exc", "fn", "flags"):
         return z3.IntSort()
     if t == "bool":
         return z3.BoolSort()
